@@ -165,6 +165,51 @@ def atoms(test, pol):
     return [(t, p if pol else not p)]
 
 
+def propagate(conds):
+    """Unit propagation over the atoms of a path: `(A or B)` known true with A known false gives B; `(A and B)` known
+    false with A known true gives not B.  Returns the extended tuple."""
+    conds = list(conds)
+    for _ in range(4):
+        known = {}
+        for t, p in conds:
+            known.setdefault(t, p)
+        added = False
+        for t, p in list(conds):
+            if " or " not in t and " and " not in t:
+                continue
+            try:
+                n = ast.parse(t, mode="eval").body
+            except SyntaxError:
+                continue
+            if not isinstance(n, ast.BoolOp):
+                continue
+            want_or = isinstance(n.op, ast.Or) and p is True
+            want_and = isinstance(n.op, ast.And) and p is False
+            if not (want_or or want_and):
+                continue
+            open_ = []
+            for v in n.values:
+                at = atoms(v, True)
+                val = None
+                if len(at) == 1 and at[0][0] in known:
+                    val = known[at[0][0]] == at[0][1]
+                elif len(at) > 1 and all(a[0] in known and known[a[0]] == a[1] for a in at):
+                    val = True
+                if want_or and val is True or want_and and val is False:
+                    open_ = None   # already satisfied
+                    break
+                if val is None:
+                    open_.append(v)
+            if open_ is not None and len(open_) == 1:
+                for a in atoms(open_[0], True if want_or else False):
+                    if a not in conds:
+                        conds.append(a)
+                        added = True
+        if not added:
+            break
+    return tuple(conds)
+
+
 def const_truth(test):
     """True/False when the (simplified) test is a constant, else None."""
     t = simplify(test)
@@ -329,12 +374,12 @@ class Unfolder:
                     branches = []
                     if ct is not False:
                         a = st1.fork()
-                        a.conds = a.conds + tuple(atoms(test1, True))
+                        a.conds = propagate(a.conds + tuple(atoms(test1, True)))
                         if not _contradiction(a.conds):
                             branches += self.block(s.body, [a], cls, fn, ctx, depth)
                     if ct is not True:
                         b = st1.fork()
-                        b.conds = b.conds + tuple(atoms(test1, False))
+                        b.conds = propagate(b.conds + tuple(atoms(test1, False)))
                         if not _contradiction(b.conds):
                             branches += self.block(s.orelse, [b], cls, fn, ctx, depth)
                     out += branches
@@ -451,7 +496,7 @@ class Unfolder:
                 if ct is (not pol):
                     continue
                 a = st.fork()
-                a.conds = a.conds + tuple(atoms(expr.test, pol))
+                a.conds = propagate(a.conds + tuple(atoms(expr.test, pol)))
                 if not _contradiction(a.conds):
                     out += self.eval_cases(sub, a, cls, fn, ctx, depth)
             return out
